@@ -26,6 +26,10 @@ def pool():
         "C-same-structure-other-values": gen.model([li], {"p1": dict(ops=["op"], over={"op/tau": 5.0}), "p2": dict(ops=["op"]), "p3": dict(ops=["op"])},
                                                    [E("p1/op/r", "p2/op/r_in", -1.0), E("p3/op/r", "p1/op/r_in", 2.5)]),
         "D-unrelated": gen.model([other], {"n1": dict(ops=["zz"]), "n2": dict(ops=["zz"], over={"zz/tau": 3.0})}, [E("n1/zz/q", "n2/zz/w", 0.7)]),
+        # a model that calls a backend function (sigmoid) — the target after another model ran with user-supplied `ops`
+        "F-calls-sigmoid": gen.model([dict(name="sg", eqs=[["s", "de", ["+", ["neg", ["/", mdl.V("s"), mdl.V("tau")]],
+                                                                  ["*", mdl.V("k"), ["call", "sigmoid", mdl.V("s")]]]]],
+                                           vars={"s": ["output", 0.5], "tau": ["const", 1.0], "k": ["const", 2.0]})], {"q1": dict(ops=["sg"])}),
         # other operator names, but an input variable called r_in like model A's
         "E-other-ops-same-input-name": gen.model([gen.op_li("ee", x="g", ins=("r_in",), tau=1.5, x0=0.2)],
                                                  {"k1": dict(ops=["ee"]), "k2": dict(ops=["ee"], over={"ee/tau": 0.5})}, [E("k1/ee/g", "k2/ee/r_in", -0.4)]),
@@ -44,10 +48,10 @@ def input_for(mname, model, which=0):
 
 
 OPS = ["compile", "compile_vec", "compile_noclear", "run", "run_noclear", "jacobian", "yaml", "update_var", "clear", "clear_frontend",
-       "yaml_update_run_clear", "compile_inputs_noclear", "compile_decorator", "update_var_shared"]
+       "yaml_update_run_clear", "compile_inputs_noclear", "compile_decorator", "update_var_shared", "run_user_ops", "yaml_edge_update_clear"]
 UNCLEARED = ("compile_noclear", "run_noclear", "compile_inputs_noclear")
 CLEARING = ("compile", "compile_vec", "run", "jacobian", "yaml", "update_var", "update_var_shared", "clear", "yaml_update_run_clear",
-            "compile_decorator")
+            "compile_decorator", "run_user_ops", "yaml_edge_update_clear")
 
 
 def negate(f):
@@ -100,6 +104,24 @@ def do_op(op, mname, model, keep):
         first = mdl.state_vars(model)[0]
         tpl.update_var(node_vars={first.rsplit("/", 1)[0] + "/tau": 9.0})
         tpl.run(simulation_time=0.2, step_size=0.05, solver="euler", outputs={"o": first}, vectorize=True, verbose=False, clear=True,
+                in_place=True, float_precision="float64")
+        clear(tpl)
+    elif op == "run_user_ops":
+        # a run with user-supplied backend function definitions (a replacement for sigmoid), followed by a full clear
+        tpl = mdl.build_templates(model)
+        my_ops = {"sigmoid": {"call": "sigmoid", "def": "\ndef sigmoid(x):\n    return 0.5*x\n"}}
+        tpl.run(simulation_time=0.2, step_size=0.05, solver="euler", outputs={"o": mdl.state_vars(model)[0]}, vectorize=False, verbose=False,
+                clear=True, in_place=False, float_precision="float64", ops=my_ops)
+        clear_frontend_caches()
+    elif op == "yaml_edge_update_clear":
+        # load from YAML, change an EDGE attribute in place, run, clear everything: a later load of the same path is unaffected
+        path = mdl.write_yaml(model, path=f"y_{mname[0]}/m.yaml")
+        tpl = CircuitTemplate.from_yaml(path)
+        edges = tpl.edges
+        if edges:
+            src, tgt = edges[0][0], edges[0][1]
+            tpl.update_var(edge_vars=[(src, tgt, {"weight": 10.0})])
+        tpl.run(simulation_time=0.2, step_size=0.05, solver="euler", outputs={"o": mdl.state_vars(model)[0]}, vectorize=True, verbose=False, clear=True,
                 in_place=True, float_precision="float64")
         clear(tpl)
     elif op == "compile_inputs_noclear":
@@ -175,7 +197,7 @@ def features_of(history, target):
     noclear = [(o, m) for o, m in history if o in ("compile_noclear", "run_noclear", "compile_inputs_noclear")]
 
     def opnames(m):
-        return {"A": {"op"}, "B": {"op"}, "C": {"op"}, "D": {"zz"}, "E": {"ee"}}[m[0]]
+        return {"A": {"op"}, "B": {"op"}, "C": {"op"}, "D": {"zz"}, "E": {"ee"}, "F": {"sg"}}[m[0]]
     # an uncleared compilation/run of a model, followed — WITHOUT any operation in between that clears the process-global caches —
     # by a model (or the target) that shares an operator NAME with it
     stale = False
@@ -194,7 +216,8 @@ def families(tier, seed):
     rng = random.Random(seed)
     P = list(pool())
     out = []
-    singles = [(o, m) for o in OPS for m in P if not (o == "clear_frontend" and m != "A")]
+    singles = [(o, m) for o in OPS for m in P if not (o == "clear_frontend" and m != "A")
+               and not (o == "compile_inputs_noclear" and m.startswith("F"))]       # model F has no input variable
     hist = [[h] for h in singles]
     pairs = [list(p) for p in itertools.product(singles, repeat=2)]
     rng.shuffle(pairs)
@@ -209,6 +232,11 @@ def families(tier, seed):
             out.append(dict(tag=f"H{i}", features=features_of(h, tgt), history=h, target=tgt, vec=vec, seed=seed))
     # targeted histories: the target is loaded from YAML / compiled with inputs / compiled after a decorated twin
     for m in P:
+        out.append(dict(tag=f"T-user-ops-then-sigmoid-{m[0]}", features=features_of([("run_user_ops", m)], "F-calls-sigmoid"),
+                        history=[("run_user_ops", m)], target="F-calls-sigmoid", vec=False, seed=seed))
+        if m[0] in "ABCDE":
+            out.append(dict(tag=f"T-yaml-edge-{m[0]}", features=features_of([("yaml_edge_update_clear", m)], m), history=[("yaml_edge_update_clear", m)],
+                            target=m, vec=False, seed=seed, route="yaml"))
         out.append(dict(tag=f"T-yaml-{m[0]}", features=features_of([("yaml_update_run_clear", m)], m), history=[("yaml_update_run_clear", m)],
                         target=m, vec=False, seed=seed, route="yaml"))
         out.append(dict(tag=f"T-decorator-{m[0]}", features=features_of([("compile_decorator", m)], m), history=[("compile_decorator", m)],
@@ -233,7 +261,7 @@ def main():
         chk, "history-independence", families(chk.tier, chk.seed), case_fn, site="C13/history",
         rule="pool of 4 models (A; B = same operator NAME, other equation; C = same operator structure, other values/nodes; D = "
              "unrelated) and operations {get_run_func (in_place T/F, clear T/F, vectorize T/F), run (clear T/F), get_jacobian_func, "
-             "from_yaml+compile, update_var+compile, clear(), clear_frontend_caches()}, all writing the same generated file name: every "
+             "from_yaml+compile, update_var+compile (node and edge variables), a run with user-supplied `ops`, clear(), clear_frontend_caches()}, all writing the same generated file name: every "
              "single operation and seeded histories of 2 (thorough: 3) operations run in ONE process, then the target model must "
              "satisfy the C01 clauses against its own spec, and every function returned during the history must still compute its "
              "own model; distinct = (history, target, vectorize)",
